@@ -1327,7 +1327,11 @@ class Engine:
             if region is not None and bi == region[0] and prev is None:
                 pass
             elif self.cfg.get('unroll'):
-                pass
+                if bi in loops:
+                    n_ = st.vn.get(('unroll-n', fr.uid, bi), 0) + 1
+                    st.vn[('unroll-n', fr.uid, bi)] = n_
+                    if n_ > 5000:
+                        raise Budget('a loop executed as written does not come to an end in %s (its iterator is not exactly known)' % func)
             elif bi in loops and st.vn.get(('unrolling', fr.uid, bi)) == 'guard':
                 # a `while` whose guard had a definite value so far: keep executing it as written while
                 # that stays so, otherwise cut the loop here (the rest of its iterations)
@@ -1968,7 +1972,7 @@ class Engine:
         cinfo = self.probe_loop(st, fr, head, blocks, depth)
         pre = {}
         if cinfo:
-            for l in cinfo['mono']:
+            for l in set(cinfo['mono']) | {k[1] for (k, _r, _e, _c) in cinfo.get('bounds', [])} | set(cinfo.get('opt', {})):
                 pre[l] = st.store.get(('L', fr.uid, l))
         self.plain_havoc(st, fr, head, blocks)
         if cinfo:
@@ -2035,7 +2039,9 @@ class Engine:
         gc = self.guard_chain(body, head, blocks)
         if gc is None:
             return False
-        chain, gbb, cont_true = gc
+        chain, gbb, cont_true, ginfo = gc
+        if ginfo is not None:
+            return False
         s2 = st.fork()
         saved = (self.hooks, self.event_hook, self.call_trace_hook)
         self.hooks, self.event_hook, self.call_trace_hook = [], None, None
@@ -2074,7 +2080,7 @@ class Engine:
         gc = self.guard_chain(body, head, blocks)
         if gc is None or self.probing >= 3 or self.cfg.get('no_probe'):
             return None
-        chain, gbb, cont_true = gc
+        chain, gbb, cont_true, ginfo = gc
         mod = self.loop_mod(fr, blocks)
         sp = st.fork()
         water = next(values._sym_counter)
@@ -2083,11 +2089,21 @@ class Engine:
         except Exception:
             return None
         heads = {}
+        optheads = {}       # Option<integer> locals the loop carries: local -> payload at the head
         for l in mod:
             v = sp.store.get(('L', fr.uid, l))
             if isinstance(v, NumV) and v.sym is not None and v.sym > water and v.k == 0:
                 heads[l] = v
-        if not heads:
+            elif isinstance(v, EnumV) and v.ty.startswith('std::option::Option<') and set(v.tags) == {0, 1}:
+                pty = v.ty[len('std::option::Option<'):-1]
+                if pty in INT_RANGES:
+                    try:
+                        pv = self.read(sp, (('L', fr.uid, l), (('v', 1), ('f', '0', pty))))     # materialises the payload
+                    except Exception:
+                        pv = None
+                    if isinstance(pv, NumV) and pv.sym is not None and pv.sym > water and pv.k == 0:
+                        optheads[l] = pv
+        if not heads and not optheads:
             return None
         saved = (self.hooks, self.event_hook, self.call_trace_hook)
         self.hooks, self.event_hook, self.call_trace_hook = [], None, None
@@ -2131,6 +2147,68 @@ class Engine:
                 mono[l] = ('inc', lo if lo == hi and lo > 0 else None, lo)
             elif hi is not None and hi <= 0:
                 mono[l] = ('dec', -hi if lo == hi and hi < 0 else None, -hi)
+        # Option-state loops (`while let Some(v) = state { ..; state = if .. { Some(v - 1) } else { None } }`):
+        # back edges either carry Some(next payload) or None (the loop is then left at its head)
+        optinfo = {}
+        for l, P in optheads.items():
+            lo = hi = None
+            okl = True
+            some_edges, none_edges = [], []
+            for sb in backs:
+                cur = sb.store.get(('L', fr.uid, l))
+                if not isinstance(cur, EnumV) or len(cur.tags) != 1:
+                    okl = False
+                    break
+                if set(cur.tags) == {0}:
+                    none_edges.append(sb)
+                    continue
+                cp = cur.payload.get(1).fields.get('0') if cur.payload.get(1) is not None else None
+                if not isinstance(cp, NumV):
+                    okl = False
+                    break
+                some_edges.append((sb, cp))
+                cs = self._sym(cp)
+                up = sb.zone.get(cs, P.sym)
+                dn = sb.zone.get(P.sym, cs)
+                u = (up + cp.k) if up != INF else None
+                d = (-dn + cp.k) if dn != INF else None
+                if cs == P.sym:
+                    u = d = cp.k
+                if d is None or u is None or d != u:
+                    okl = False
+                    break
+                lo = d if lo is None else min(lo, d)
+                hi = u if hi is None else max(hi, u)
+            if okl and some_edges and lo == hi and lo in (1, -1):
+                optinfo[l] = dict(dir='inc' if lo > 0 else 'dec', some=some_edges, none=none_edges, head=P)
+        # bounds by values the loop leaves alone: e + c <= v (or v <= e + c) that hold for the new value
+        # of v at every back edge are candidates; apply_counters keeps those that also hold on entry
+        bounds = []
+        def sym_bounds(edges, key):
+            # edges: [(state, new value NumV)]
+            lows, ups = None, None
+            for (sb, cv) in edges:
+                cs = self._sym(cv)
+                lo_here, up_here = {}, {}
+                for (a, b), c in sb.zone.d.items():
+                    if b == cs and a != cs and (a == Z or a <= water):
+                        lo_here[a] = cv.k - c          # v >= a + (cv.k - c)
+                    if a == cs and b != cs and (b == Z or b <= water):
+                        up_here[b] = cv.k + c          # v <= b + (cv.k + c)
+                lows = lo_here if lows is None else {e: min(lows[e], lo_here[e]) for e in lows if e in lo_here}
+                ups = up_here if ups is None else {e: max(ups[e], up_here[e]) for e in ups if e in up_here}
+            for e, c in (lows or {}).items():
+                if e != Z:
+                    bounds.append((key, 'ge', e, c))
+            for e, c in (ups or {}).items():
+                if e != Z:
+                    bounds.append((key, 'le', e, c))
+        for l, L in heads.items():
+            edges = [(sb, sb.store.get(('L', fr.uid, l))) for sb in backs]
+            if edges and all(isinstance(cv, NumV) for (_sb, cv) in edges):
+                sym_bounds(edges, ('num', l))
+        for l, oi in optinfo.items():
+            sym_bounds(oi['some'], ('opt', l))
         guard = None
         why = 'the guard is not a comparison of a local the loop moves with a value the loop leaves alone'
         if guards:
@@ -2169,11 +2247,34 @@ class Engine:
             else:
                 why = '%s is compared (%s) with a fixed value but is not shown to move towards it on every path through the body (%s)' % (
                     body.local_name(l), op, m)
+        if ginfo is not None and backs:
+            oi = optinfo.get(ginfo[1])
+            if oi is not None:
+                rank_ok, why = True, 'the loop continues only while %s holds a value, and every path that puts a value back %s it by one (an integer cannot do that for ever)' % (
+                    body.local_name(ginfo[1]), 'lowers' if oi['dir'] == 'dec' else 'raises')
+            else:
+                rank_ok, why = False, 'the Option the loop tests is not shown to move by one towards exhaustion on every path through the body'
         if not self.probing:
             self.loop_rank.setdefault((fr.func, head), []).append(dict(ok=rank_ok, why=why, paths=len(backs)))
-        if not mono:
+        if not mono and not optinfo and not bounds:
             return None
-        return dict(mono=mono, guard=guard)
+        # for an Option-state loop: the element in hand when the state becomes None (if it is bounded by one of
+        # the candidate values, the walk ends exactly there)
+        optlast = {}
+        for l, oi in optinfo.items():
+            P = oi['head']
+            last = None
+            for sb in oi['none']:
+                here = {}
+                for (a, b), c in sb.zone.d.items():
+                    if oi['dir'] == 'dec' and a == P.sym and (b <= water) and b != Z:
+                        here[b] = c            # P <= b + c
+                    if oi['dir'] == 'inc' and b == P.sym and (a <= water) and a != Z:
+                        here[a] = -c           # P >= a - c
+                last = here if last is None else {e: (max(last[e], here[e]) if oi['dir'] == 'dec' else min(last[e], here[e])) for e in last if e in here}
+            optlast[l] = last or {}
+        return dict(mono=mono, guard=guard, bounds=bounds, opt={l: (oi['dir'], optlast[l], bool(oi['none'])) for l, oi in optinfo.items()},
+                    ginfo=ginfo)
 
     def apply_counters(self, st, fr, head, cinfo, pre):
         """after the cut: what the probe established about the integer locals of the loop.  A local that
@@ -2189,6 +2290,60 @@ class Engine:
                 self.assume_le(st, l0, L)
             else:
                 self.assume_le(st, L, l0)
+        def cur_num(l, kind):
+            v = st.store.get(('L', fr.uid, l))
+            if kind == 'opt':
+                if not (isinstance(v, EnumV) and v.ty.startswith('std::option::Option<')):
+                    return None
+                try:
+                    v = self.read(st, (('L', fr.uid, l), (('v', 1), ('f', '0', v.ty[len('std::option::Option<'):-1]))))
+                except Exception:
+                    return None
+            return v if isinstance(v, NumV) else None
+
+        def pre_num(l, kind):
+            v = pre.get(l)
+            if kind == 'opt':
+                if not (isinstance(v, EnumV) and set(v.tags) == {1} and v.payload.get(1) is not None):
+                    return None
+                v = v.payload[1].fields.get('0')
+            return v if isinstance(v, NumV) else None
+        kept = {}
+        for ((kind, l), rel, e, c) in cinfo.get('bounds', []):
+            v0, v = pre_num(l, kind), cur_num(l, kind)
+            if v0 is None or v is None:
+                continue
+            b = NumV(e, c, v.ty)
+            if rel == 'ge' and self.prove_le(st, b, v0) is True:
+                self.assume_le(st, b, v)
+                kept.setdefault((kind, l, 'ge'), []).append((e, c))
+            elif rel == 'le' and self.prove_le(st, v0, b) is True:
+                self.assume_le(st, v, b)
+                kept.setdefault((kind, l, 'le'), []).append((e, c))
+        for l, (dirn, last, has_none) in cinfo.get('opt', {}).items():
+            v0, v = pre_num(l, 'opt'), cur_num(l, 'opt')
+            if v0 is None or v is None:
+                continue
+            if dirn == 'dec':
+                self.assume_le(st, v, v0)
+            else:
+                self.assume_le(st, v0, v)
+            gi = cinfo.get('ginfo')
+            if not (gi is not None and gi[1] == l and has_none and v.sym is not None and v.k == 0):
+                continue
+            # the walk: from the entry payload, by ones, down (up) to the bound at which the state becomes None
+            for (e, c) in kept.get(('opt', l, 'ge' if dirn == 'dec' else 'le'), []):
+                if e in last and ((dirn == 'dec' and last[e] <= c) or (dirn == 'inc' and last[e] >= c)):
+                    end = NumV(e, c, v.ty)
+                    if dirn == 'dec':
+                        it = IterV('range', 'std::ops::RangeInclusive<%s>' % v.ty, (end, v0, True), ops=(('rev',),))
+                    else:
+                        it = IterV('range', 'std::ops::RangeInclusive<%s>' % v.ty, (v0, end, True), ops=())
+                    st.vn[('itersym', v.sym)] = it
+                    self.loop_counters.setdefault((fr.func, head), set()).add(l)
+                    st.vn[('counter', fr.uid, head)] = dict(local=l, elem=v, dir=dirn, step=1, lo=it.args[0], hi=it.args[1], incl=True)
+                    st.vn[('counter-desc', fr.uid, head)] = ('range', it.args[0], it.args[1], True, tuple(o[0] for o in it.ops))
+                    break
         g = cinfo.get('guard')
         if not g:
             return
